@@ -6,6 +6,9 @@ BASE = json.load(open('/root/.vp/BASELINE.json'))
 
 # property -> (technique, what is decided, what is not decided)
 CLAIMED = {
+ "C13": ("provenance and argument-order rules over the typed AST (parameter-to-argument identity, axis/index agreement); dominating-fact extraction on go/cfg for the radius cut-off",
+         "the plumbing between the ordering and what is reported: the best-first traversal in Collection.Nearby is ordered by geodeticDistAlgo of the query's own centre with boxes forwarded one-to-one, the distance handed to the user iterator is the traversal's own distance for that item; for stored objects the distance is computed from the object's exact rectangle with consistent (lat, lng) argument pairs; in cmdNearby an object is delivered only where `radius > 0 && dist > radius` is known false, against the query circle's Meters(), and the DISTANCE delivered is that same dist; a filter never ends the traversal (R12.filters-never-stop)",
+         "everything numeric: that the geodesic point-to-rectangle distance is an admissible lower bound for tree nodes, the haversine values themselves, the R-tree's best-first traversal (library), k-closest over all datasets"),
  "C01": ("path search with boolean correlation on go/cfg from every effective mutation site of the write handlers; must-pass-through of the empty-collection cleanup",
          "two clauses only: (a) 'an error or negative answer changes nothing' — in every write handler no feasible path leads from an effective mutation of the keyspace, a collection or the hook registry to a return carrying a non-nil error or the NX/XX negative reply; (b) 'a collection exists iff it holds an object' — every deletion of an object from a keyspace collection is followed on all normal paths by the Count() == 0 → cols.Delete cleanup, and a collection registered while empty receives an object on every path that follows; Count(), which the cleanup tests, is maintained symmetrically by every insertion and removal site (R19.delta)",
          "equivalence of replies and visible state with the map model over all programs, and exact read-back of objects and field values (value-level; no static argument in reach)"),
@@ -66,7 +69,6 @@ CLAIMED = {
 }
 
 NOT_APPLICABLE = {
- "C13": "entirely numeric/ordering of run-time distances (best-first traversal bound, haversine values, k-closest); no structural necessary condition specific to it that static analysis can decide soundly",
 }
 
 PENDING_REASON = "static check for this property is not built yet in this revision (DESIGN.md section 4 describes the planned structural clauses)"
